@@ -53,10 +53,12 @@ theorem step1_refuse_frame (retry : Cl → Option (Cl × Res)) (nx : Nat) (c : C
           · split
             · intro h; simp [isRefusal] at h
             · exact frame_ownMessage c e hs
-          · unfold processCommit
-            split
-            · intro _; simp
-            · intro h; simp [isRefusal] at h
+          · split
+            · exact frame_fail c e
+            · unfold processCommit
+              split
+              · intro _; simp [recordFailure, setRec, proj, withSecret, ensureSecret_fields]
+              · intro h; simp [isRefusal] at h
       · -- leave
         split
         · exact frame_fail c e
@@ -114,6 +116,16 @@ theorem refuse_frame_full_false : ¬ refuse_frame_full := by
 /-- … and the legitimate commit is refused for ever afterwards -/
 theorem witness_good_commit_lost :
     (deliver (deliver wAfterGood wEvil 0).1 wGood 0).2 = .unprocessable := by decide
+
+/-! ### a second way to a refused event with an effect: the same commit ciphertext under two wrappers
+    (signature `rewrapped-commit-rollback`): the copy with the earlier wrapper timestamp is 'better', the
+    receiver rolls back, and the ciphertext cannot be decrypted a second time -/
+def wCopyLate : Ev := { wGood with n := 5, ts := 30, idnum := 3 }   -- re-wrapped copy, applied first
+theorem witness_rewrapped_commit :
+    (deliver wClient wCopyLate 0).2 = .commit ∧
+    (deliver (deliver wClient wCopyLate 0).1 wGood 0).2 = .unprocessable ∧
+    (deliver (deliver wClient wCopyLate 0).1 wGood 0).1.g.path = [] ∧
+    (deliver (deliver (deliver wClient wCopyLate 0).1 wGood 0).1 wCopyLate 0).2 = .unprocessable := by decide
 
 /-- non-vacuity of `refuse_frame_partial`: a refused duplicate in a state with a snapshot -/
 example : isBetter wAfterGood (epochOf wGood.path) wGood = false ∧ isRefusal (deliver wAfterGood { wGood with n := 9, ts := 30 } 0).2 = true := by
